@@ -87,13 +87,15 @@ def c20_search(tier='quick'):
         args = ['strace', '-f', '-qq', '-e', 'trace=' + TRACED, '-o', tf.name, exe, 'c20', str(n)] + (['linked'] if n == sizes[0] else [])
         timed_out = False
         try:
-            subprocess.run(args, stdout=subprocess.PIPE, stderr=subprocess.PIPE, text=True, timeout=60)
+            pr = subprocess.run(args, stdout=subprocess.PIPE, stderr=subprocess.PIPE, text=True, timeout=60)
+            if pr.returncode == 3:      # the program's own five-second watchdog (replay/src/c20.rs)
+                timed_out = True
         except subprocess.TimeoutExpired:
             timed_out = True
         regs, last = _regions(tf.name)
         os.unlink(tf.name)
         if timed_out:
-            return {'entries': n, 'operation': last, 'what': 'the operation did not complete within 60 s (it waits on something)'}
+            return {'entries': n, 'operation': last, 'what': 'the operation did not complete (five-second watchdog of the operation, or 60 s for the whole script): it waits or retries without bound'}
         if not regs or not any(nm.endswith(':end') for nm, _ in regs) and last is None:
             raise RuntimeError('no marker regions in the trace (strace unavailable?)')
         runs[n] = regs
@@ -140,6 +142,11 @@ def c20_search(tier='quick'):
             if nm.endswith(':end') or nm.startswith('linked'):
                 continue
             cnt = collections.Counter(sc for sc, _ in calls)
+            if nm.endswith('-missing-source'):
+                # these two run under the program's watchdog thread: the stack of that thread is mapped and unmapped inside the region
+                for noise in ('mmap', 'munmap', 'mprotect', 'madvise'):
+                    cnt.pop(noise, None)
+                    ref.get(nm, {}).pop(noise, None)
             # the advisory re-touch of a hit (utimensat / futimens) happens or not depending on what the kernel did to
             # the access time at open, i.e. on timing: at most one such call per copy may come or go between two runs
             diff = {k: (ref[nm].get(k, 0), cnt.get(k, 0)) for k in set(ref.get(nm, {})) | set(cnt)
